@@ -9,14 +9,18 @@ spec/VbftSelect.tla (+VbftSelectMC.tla, TraceVbftSelect.tla); driver harness/cmd
                  degenerate seeds; TLC recomputes every output on the real layout (64-byte seed, 512 slots) and
                  evaluates the monitor predicates on every logged output.  On the large / skewed configs (where the
                  committer window of 240 slots often runs dry) every draw is judged by the monitor and the first few per
-                 config are also recomputed.
+                 config are also recomputed.  The production entry point Server.updateParticipantConfig is driven for
+                 the round after an ordinary block and after a chain-config block (old / new config differing in N, C,
+                 membership): the selection must be Build(config in force, seed of the sealed block) and equal for a node
+                 that has and one that has not switched Server.config yet.
 """
 import json
 
 KEYS = {"cfg": "vbft-select:pos-table-not-from-pool-or-not-a-function",
         "build": "vbft-select:selection-malformed-or-not-a-function",
         "peers": "vbft-select:range-malformed-or-not-a-function",
-        "part": "vbft-select:slot-outside-table"}
+        "part": "vbft-select:slot-outside-table",
+        "round": "vbft-select:round-selection-not-from-config-in-force"}
 
 
 def run(ctx):
@@ -24,15 +28,22 @@ def run(ctx):
     b = ctx.build("vd-vbft")
     ctx.mc("VbftSelectMC", "VbftSelect_mc_quick.cfg" if q else "VbftSelect_mc_thorough.cfg", timeout=6000,
            workers=max(2, ctx.cores // 2))
-    builds, seeds, xbuilds, xre = (35, 1, 150, 3) if q else (1000, 12, 1500, 25)
-    events = ctx.driver(b, ["select", str(builds), str(seeds), str(xbuilds), str(xre)])
+    ctx.mc("VbftSelectMC", "VbftSelect_mc_round.cfg", timeout=6000, workers=2)
+    builds, seeds, xbuilds, xre, rounds = (35, 1, 150, 3, 10) if q else (1000, 12, 1500, 25, 150)
+    events = ctx.driver(b, ["select", str(builds), str(seeds), str(xbuilds), str(xre), str(rounds)])
+    nround = sum(1 for e in events if e["op"] == "round")
+    if nround < 100 or not any(e["op"] == "round" and e["new"]["tbl"] and not e["err"] for e in events):
+        ctx.fail("vacuous recording of the round entry point: %d round events" % nround)
     cfgs, cur = {}, None
     ok_by_n, err_by_n, distinct = {}, {}, set()
     for e in events:
         if e["op"] in ("panic", "cfgfail"):
             # the property does not speak about panics; a crashing selection gives no observation to judge
             ctx.fail("selection code panicked / config could not be built: %s" % json.dumps(e)[:1500])
-        if e["op"] == "cfg":
+        if e["op"] == "round":
+            if not e["err"]:
+                distinct.add(("round", len(e["cur"]["tbl"]), len(e["new"]["tbl"]), tuple(e["p"]), tuple(e["e"]), tuple(e["c"])))
+        elif e["op"] == "cfg":
             cfgs[e["id"]] = e
         elif e["op"] == "build":
             n = cfgs[e["id"]]["n"]
